@@ -19,7 +19,7 @@ func init() {
 		Explanation: "Static decision of the structural clauses of C09. R1 (ITER): no loop indexes a slice that is shrunk inside the loop without compensating the index. R2: every value DNSRewrites can return passed a filter " +
 			"that removes exactly the exception rules. R3 (PDT): the decision table of the exception matcher (important guard, CNAME, response code, record type, value) equals the table of the property statement on all valuations of its atoms, " +
 			"and the per-exception remover has the documented four cases. R4 (TYFLOW): the rewrite value, whose dynamic types include pointers, is never compared with == on the interface. R5: only order-preserving operations touch the result. " +
-			"R6: in-place operations work on the fresh slice from DNSRewritesAll, which never returns engine-owned memory. R7: the loop applying exceptions visits every exception (complete range, no early exit) and the exception list holds every exception rule. R8: a table of the repository that pairs a response-code or record-type keyword with a number gives it the number of the DNS library's name table (read from the library's source), so that the shorthand and the full form of $dnsrewrite denote the same codes. R10 (SEQ): DNSRewrites is evaluated with everything below it expanded and every list on the way to its result is read as 'DNSRewritesAll() without the elements with drop(x)' (DeleteFunc adds its predicate, a loop folding a list of exceptions adds 'some exception of the list has Q', a loop appending the kept elements drops the others, nil drops everything); the drop predicate of the result must be Whitelist(x) or 'some exception rule disables x', and the disabling relation is compared with the statement on every valuation of its criteria. Where the function can be read this way R10 decides and R1, R2, R3, R5, R7 are subsumed; otherwise the reading names the construct it cannot read and those rules judge the familiar shape. R9 imports C10.R9.",
+			"R6: in-place operations work on the fresh slice from DNSRewritesAll, which never returns engine-owned memory. R7: the loop applying exceptions visits every exception (complete range, no early exit) and the exception list holds every exception rule. R8: a table of the repository that pairs a response-code or record-type keyword with a number gives it the number of the DNS library's name table (read from the library's source), so that the shorthand and the full form of $dnsrewrite denote the same codes. R10 (SEQ): DNSRewrites is evaluated with everything below it expanded and every list on the way to its result is read as 'DNSRewritesAll() without the elements with drop(x)' (DeleteFunc adds its predicate, a loop folding a list of exceptions adds 'some exception of the list has Q', a loop appending the kept elements drops the others, nil drops everything); the drop predicate of the result must be Whitelist(x) or 'some exception rule disables x', and the disabling relation is compared with the statement on every valuation of its criteria. Where the function can be read this way R10 decides and R1, R2, R3, R5, R7 are subsumed; otherwise the reading names the construct it cannot read and those rules judge the familiar shape. R9 imports C10.R9. Flags and lists kept in fields of a local object, lists of carrier structs built from the exception rules and returns reached by leaving a loop early are part of the reading; the comparison with the statement is a model check over the kinds of exception rules a list can hold (every set of realised signatures), so any boolean combination of searches is decided and a deviation is reported as a scenario.",
 		Trusted: []string{"slices.DeleteFunc keeps the relative order of the elements it keeps; reflect.DeepEqual compares pointed-to values"},
 	})
 }
